@@ -11,10 +11,15 @@
 // statement). For the "only if" half every name is deviated once (suffix, child of a directory named like
 // the segment, prefix directory, digit removed / duplicated, a field set out of its range, file moved one
 // directory down) and additionally offered to mode F of every OTHER path name of the alphabet.
+//
+// history.go adds the history dimension: formats that differ only in the order of equally shaped
+// specifiers, used one after the other in fresh subprocesses (Encode/Decode must not depend on which
+// formats were used before in the process).
 package main
 
 import (
 	"fmt"
+	"os"
 	"path/filepath"
 	"sort"
 	"strings"
@@ -147,6 +152,10 @@ func classify(toks []c26lib.Tok, cand string, fixedPath string, pa recordstore.P
 }
 
 func main() {
+	if os.Getenv(histEnv) != "" {
+		histWorker()
+		return
+	}
 	r := vcommon.Start("C26", "exploration")
 	thorough := r.Thorough()
 	zones := c26lib.Zones(thorough)
@@ -158,7 +167,11 @@ func main() {
 	}
 	r.Rule = "all (time.Local zone x record path format x path name x start instant): real Encode -> real Decode in mode F and mode R vs the whole-name reference parser; " +
 		"plus, for 3 of the instants (6 thorough), every single deviation of the name (suffix, child, prefix, field out of range, one directory down, extension, each of .-_ replaced by x; for 1 instant (2 thorough) every digit removed/duplicated) " +
-		"and the name offered to mode F of every other path; distinct = (format, zone, mode, kind of case, outcome, ambiguity class)"
+		"and the name offered to mode F of every other path; distinct = (format, zone, mode, kind of case, outcome, ambiguity class). " +
+		"History phase (Encode/Decode must be pure functions of (format, name)): formats = the 9 + every order of %Y %m %d, of %H %M %S and (quick: identity and the 10 exchanges of two; thorough: all 120 orders) of %m %d %H %M %S with identical literal text; " +
+		"histories of format uses, each in a fresh subprocess: ordered pairs in both orders (inside a same-shape class: all when the class is small, else the class's first format with every other; thorough: all pairs of the quick alphabet), " +
+		"thorough sequences of three inside small classes, the whole alphabet forwards and backwards, single formats; a use = real Encode + Decode F/R of 2 paths x 2 instants + Decode of the names written under the other formats of the history; " +
+		"every result vs the reference parser and vs the answer of the same call when its format is the first one used in a process"
 	for _, p := range pathNames {
 		c26lib.CheckPathNameRule(p)
 	}
@@ -189,6 +202,14 @@ func main() {
 			v.order, v.what, v.rep = order, what(), rep
 		}
 	}
+
+	// the history phase (history.go) runs in subprocesses and judges with an explicit location: it does not read
+	// time.Local and runs beside the main enumeration
+	histDone := make(chan struct{})
+	go func() {
+		defer close(histDone)
+		historyPhase(r, thorough, violAt)
+	}()
 
 	for zi, z := range zones {
 		// time.Local is a package variable read by Decode and time.Unix: set it while nothing runs.
@@ -345,6 +366,16 @@ func main() {
 			oor("M", "60")
 			oor("S", "60")
 			oor("m", "02", "d", "30")
+			// days that do not exist in their month although every field is inside its own range
+			// (the model decides: February 29th of the instant's year is a produced name in a leap year)
+			oor("m", "02", "d", "29")
+			oor("Y", "2023", "m", "02", "d", "29")
+			oor("Y", "2100", "m", "02", "d", "29")
+			oor("m", "02", "d", "31")
+			oor("m", "04", "d", "31")
+			oor("m", "06", "d", "31")
+			oor("m", "09", "d", "31")
+			oor("m", "11", "d", "31")
 			if level >= 2 {
 				for _, pos := range digitPositions(name, len(root)) {
 					add("digit-removed", name[:pos]+name[pos+1:])
@@ -414,6 +445,7 @@ func main() {
 		r.Set("zones_done", zi+1)
 	}
 	time.Local = time.UTC
+	<-histDone
 	for key, v := range seen {
 		r.Violation(key, v.what, v.rep)
 		for i := 1; i < v.count; i++ {
@@ -431,6 +463,7 @@ func main() {
 		"inside a DST overlap (format without %z/%s) and for formats without %f the decoded instant only has to be one the name denotes",
 		"conf.IsValidPathName is the definition of a path name (C06 judges it)",
 		"format alphabet: 9 accepted record path formats incl. regexp metacharacters in literals; formats with two %path or with both %s and %Y are outside the alphabet",
+		"history phase: one zone (Europe/Rome), 2 paths, 2 instants; histories longer than 3 only as the two whole-alphabet sequences; process-wide state is reset by starting a new process, state kept outside the process (files) is not considered",
 	}
 	r.Finish()
 }
